@@ -344,6 +344,21 @@ End RoundTrip.
 (* ------------------------------------------------------------------------ *)
 (* E. archives: key defaulting, overwrite, repeatability                      *)
 
+Lemma entries_ok_iff : forall {V} (es : list (string * arr V)),
+  entries_ok es <-> ~ In savez_positional_name (map fst es) /\ ~ In savez_keyword_name (map fst es).
+Proof.
+  intros V es. unfold entries_ok, entries_okb. rewrite andb_true_iff, !negb_true_iff.
+  rewrite <- !not_true_iff_false, !str_mem_In. tauto.
+Qed.
+
+Lemma key_ok_iff : forall k,
+  key_ok (Some k) <-> k <> savez_positional_name /\ k <> savez_keyword_name.
+Proof.
+  intro k. unfold key_ok, key_okb. rewrite andb_true_iff, !negb_true_iff.
+  rewrite <- !not_true_iff_false, !String.eqb_eq. tauto.
+Qed.
+
+
 Section Npz.
   Context {V : Type}.
   Variable C : VClass V.
@@ -365,7 +380,7 @@ Section Npz.
   Lemma savez_ok : forall (fs : fsys V) p es c,
     entries_ok es -> savez fs p es c = Ok (fs_set fs p (FNpz c es)).
   Proof.
-    intros fs p es c [H1 H2]. unfold savez.
+    intros fs p es c H. apply entries_ok_iff in H. destruct H as [H1 H2]. unfold savez.
     destruct (str_mem savez_positional_name (map fst es)) eqn:E.
     - apply str_mem_In in E. contradiction.
     - rewrite filter_none; [reflexivity|].
@@ -375,13 +390,14 @@ Section Npz.
   Qed.
 
   Lemma entries_ok_nil : entries_ok (@nil (string * arr V)).
-  Proof. split; intros []. Qed.
+  Proof. reflexivity. Qed.
 
   Lemma entries_ok_dict_set : forall k (a : arr V) es,
     entries_ok es -> k <> savez_positional_name -> k <> savez_keyword_name ->
     entries_ok (dict_set k a es).
   Proof.
-    intros k a es [H1 H2] Hp Hk. split; intro Hin; apply in_keys_dict_set in Hin;
+    intros k a es H Hp Hk. apply entries_ok_iff in H. destruct H as [H1 H2].
+    apply entries_ok_iff. split; intro Hin; apply in_keys_dict_set in Hin;
       destruct Hin as [Hin|Hin]; auto.
   Qed.
 
@@ -389,7 +405,7 @@ Section Npz.
     key_ok key ->
     npz_key key base <> savez_positional_name /\ npz_key key base <> savez_keyword_name.
   Proof.
-    intros [k|] base H; [exact H|]. unfold npz_key.
+    intros [k|] base H; [now apply key_ok_iff|]. unfold npz_key.
     destruct (first_unused_total (map fst base) 0) as [s Hs]. rewrite map_length in Hs.
     rewrite Hs. destruct (first_unused_spec _ _ _ _ Hs) as [j [-> _]].
     apply arr_key_not_reserved.
@@ -542,7 +558,7 @@ Section Npz.
   Proof.
     intros fs o a p c ow kw nv Hs Hd Ht Hfresh Hres Hdt Hkw.
     assert (Hr : npz_ready fs p ow) by (destruct Hfresh; [left|right; left]; assumption).
-    eexists. split; [apply save_npz; try eassumption; exact I|].
+    eexists. split; [apply save_npz; try eassumption; reflexivity|].
     destruct (saveable_shape C _ _ Hs) as (d & r0 & r1 & ->).
     assert (Hb : npz_base fs p ow = []).
     { unfold npz_base. destruct Hfresh as [->| ->]; [reflexivity|now destruct ow]. }
@@ -870,62 +886,76 @@ Section Sanitize.
     - destruct (caught_by sanitize_caught ValueError); inversion H.
   Qed.
 
+  (* the try block never changes the bytes or the item type *)
+  Lemma sanitize_try_same : forall a a' v,
+    sanitize_try a = Ok (a', v) -> a_dt a' = a_dt a /\ a_flat a' = a_flat a.
+  Proof.
+    intros a a' v H. unfold Model.sanitize_try in H.
+    destruct (reshape2 (a_flat a)) as [[r0 r1]|] eqn:R.
+    - destruct (reshape2_lengths _ _ _ R) as [_ E].
+      destruct (last_opt r0); [|destruct (caught_by sanitize_caught IndexError)];
+        try discriminate; injection H as Ha _; subst a'; simpl; now rewrite E.
+    - destruct (caught_by sanitize_caught ValueError); try discriminate.
+      injection H as Ha _; subst a'; auto.
+  Qed.
+
+  (* the three decisions the code takes *)
+  Lemma decision_keep : forall ch, sanitize_decision true ch = SKeep.
+  Proof. intros []; reflexivity. Qed.
+  Lemma decision_retry : sanitize_decision false false = SRetry.
+  Proof. reflexivity. Qed.
+  Lemma decision_give_up : exists e, sanitize_decision false true = SRaise e.
+  Proof. eexists; reflexivity. Qed.
+
+  (* the array tried on the second round *)
+  Definition second_view (a : arr V) (view castto : dtype) : arr V :=
+    Arr1 castto (map (cast view castto) (reinterp (a_dt a) view (a_flat a))).
+
   (* whatever comes out of the sanity check passes it; it is the array read, or
-     its bytes seen through the other float type (then widened to float64) *)
+     the re-interpretation of its bytes that the per-dtype table prescribes *)
   Lemma sanitize_ok : forall a a',
     sanitize a = Ok a' ->
     passes a' /\
     ((a_dt a' = a_dt a /\ a_flat a' = a_flat a) \/
-     (a_dt a = DF64 /\ a_dt a' = DF64 /\
-      a_flat a' = map (cast DF32 DF64) (reinterp DF64 DF32 (a_flat a))) \/
-     (a_dt a = DF32 /\ a_dt a' = DF64 /\
-      a_flat a' = map (cast DF64 DF64) (reinterp DF32 DF64 (a_flat a)))).
+     exists view castto,
+       sanitize_reinterpret (a_dt a) = Ok (view, castto) /\
+       a_dt a' = castto /\ a_flat a' = a_flat (second_view a view castto)).
   Proof.
     intros a a' H. unfold Model.sanitize, sanitize_step in H.
-    destruct (sanitize_try a) as [[a1 v1]|e] eqn:T1; [|discriminate]. simpl in H.
+    destruct (sanitize_try a) as [[a1 v1]|e] eqn:T1; [|discriminate]. cbn [bind] in H.
     destruct v1.
-    - simpl in H. inversion H; subst. destruct (sanitize_try_valid _ _ T1) as (P & D & Fl).
-      split; [exact P|]. left. auto.
-    - simpl in H.
-      assert (D1 : a_dt a1 = a_dt a /\ a_flat a1 = a_flat a).
-      { unfold Model.sanitize_try in T1. destruct (reshape2 (a_flat a)) as [[r0 r1]|] eqn:R.
-        - destruct (reshape2_lengths _ _ _ R) as [_ E].
-          destruct (last_opt r0); [|destruct (caught_by sanitize_caught IndexError)];
-            inversion T1; subst; simpl; now rewrite E.
-        - destruct (caught_by sanitize_caught ValueError); inversion T1; subst; auto. }
-      destruct D1 as [D1 F1]. rewrite D1, F1 in H.
-      unfold sanitize_reinterpret in H.
-      destruct (a_dt a) eqn:Da; simpl in H; try discriminate.
-      + (* float64 read: retry as float32 *)
-        match type of H with (tv <- sanitize_try ?b ;; _) = _ => destruct (sanitize_try b) as [[a2 v2]|e] eqn:T2 end;
-          [|discriminate]. simpl in H. destruct v2; simpl in H; [|discriminate].
-        inversion H; subst. destruct (sanitize_try_valid _ _ T2) as (P & D & Fl).
-        split; [exact P|]. right; left. auto.
-      + match type of H with (tv <- sanitize_try ?b ;; _) = _ => destruct (sanitize_try b) as [[a2 v2]|e] eqn:T2 end;
-          [|discriminate]. simpl in H. destruct v2; simpl in H; [|discriminate].
-        inversion H; subst. destruct (sanitize_try_valid _ _ T2) as (P & D & Fl).
-        split; [exact P|]. right; right. auto.
+    - rewrite decision_keep in H. inversion H; subst.
+      destruct (sanitize_try_valid _ _ T1) as (P & D & Fl). split; [exact P|]. left. auto.
+    - rewrite decision_retry in H. destruct (sanitize_try_same _ _ _ T1) as [D1 F1].
+      rewrite D1, F1 in H.
+      destruct (sanitize_reinterpret (a_dt a)) as [[view castto]|e] eqn:RI; [|discriminate].
+      cbn [bind] in H.
+      match type of H with (tv <- sanitize_try ?b ;; _) = _ =>
+        destruct (sanitize_try b) as [[a2 v2]|e] eqn:T2 end; [|discriminate].
+      cbn [bind] in H. destruct v2.
+      + rewrite decision_keep in H. inversion H; subst.
+        destruct (sanitize_try_valid _ _ T2) as (P & D & Fl). split; [exact P|].
+        right. exists view, castto. auto.
+      + destruct decision_give_up as [e Hg]. rewrite Hg in H. discriminate.
   Qed.
 
-  (* neither view is acceptable: IOError, never a silently wrong array *)
-  Lemma sanitize_both_invalid : forall l,
-    (forall a', sanitize_try (Arr1 DF64 l) <> Ok (a', true)) ->
-    (forall a', sanitize_try (Arr1 DF64 (map (cast DF32 DF64) (reinterp DF64 DF32 l))) <> Ok (a', true)) ->
-    exists e, sanitize (Arr1 DF64 l) = Raise e.
+  (* neither the array read nor its re-interpretation is acceptable: an
+     exception, never a silently wrong array *)
+  Lemma sanitize_both_invalid : forall a,
+    (forall a', sanitize_try a <> Ok (a', true)) ->
+    (forall view castto a', sanitize_reinterpret (a_dt a) = Ok (view, castto) ->
+                            sanitize_try (second_view a view castto) <> Ok (a', true)) ->
+    exists e, sanitize a = Raise e.
   Proof.
-    intros l H1 H2. unfold Model.sanitize, sanitize_step.
-    destruct (sanitize_try (Arr1 DF64 l)) as [[a1 v1]|e] eqn:T1; [|simpl; eauto]. simpl.
-    destruct v1; [exfalso; eapply H1; eauto|]. simpl.
-    assert (D1 : a_dt a1 = DF64 /\ a_flat a1 = l).
-    { unfold Model.sanitize_try in T1. simpl in T1. destruct (reshape2 l) as [[r0 r1]|] eqn:R.
-      - destruct (reshape2_lengths _ _ _ R) as [_ E].
-        destruct (last_opt r0); [|destruct (caught_by sanitize_caught IndexError)];
-          try discriminate; injection T1 as Ha _; subst a1; simpl; now rewrite E.
-      - destruct (caught_by sanitize_caught ValueError); try discriminate;
-          injection T1 as Ha; subst a1; auto. }
-    destruct D1 as [D1 F1]. rewrite D1, F1. simpl.
-    destruct (sanitize_try (Arr1 DF64 (map (cast DF32 DF64) (reinterp DF64 DF32 l)))) as [[a2 v2]|e] eqn:T2; [|simpl; eauto].
-    simpl. destruct v2; [exfalso; eapply H2; eauto|]. simpl. eauto.
+    intros a H1 H2. unfold Model.sanitize, sanitize_step.
+    destruct (sanitize_try a) as [[a1 v1]|e] eqn:T1; [|cbn [bind]; eauto]. cbn [bind].
+    destruct v1; [exfalso; eapply H1; eauto|]. rewrite decision_retry.
+    destruct (sanitize_try_same _ _ _ T1) as [D1 F1]. rewrite D1, F1.
+    destruct (sanitize_reinterpret (a_dt a)) as [[view castto]|e] eqn:RI; [|cbn [bind]; eauto].
+    cbn [bind]. fold (second_view a view castto).
+    destruct (sanitize_try (second_view a view castto)) as [[a2 v2]|e] eqn:T2; [|cbn [bind]; eauto].
+    cbn [bind]. destruct v2; [exfalso; eapply H2; eauto|].
+    destruct decision_give_up as [e Hg]. rewrite Hg. eauto.
   Qed.
 End Sanitize.
 
@@ -961,3 +991,166 @@ Lemma validity_before_fix_rejects_negative_sums :
                   stats_valid ZC c r0 r1 = true /\ stats_valid_before_fix ZC c r0 r1 = false.
 Proof. exists [4; -7; 2]%Z, [10; 29; 0]%Z, 2%Z. split; [exact wit_good|]. repeat split. Qed.
 
+
+(* the preconditions are satisfiable (and decidable: they are boolean tests) *)
+Example key_ok_sat :
+  key_ok (Some "foo"%string) /\ key_ok (Some "arr_3"%string) /\ key_ok None /\
+  key_okb (Some "file"%string) = false /\ key_okb (Some "allow_pickle"%string) = false.
+Proof. repeat split. Qed.
+
+Example load_fits_sat :
+  load_fits never never (@fs_empty Z) "a.npy" None true kw_none /\
+  load_fits never never (@fs_empty Z) "a.npz" None true kw_none /\
+  load_fits never never (@fs_empty Z) "a.npz" (Some "foo"%string) false (Kw None (Some "foo"%string) None) /\
+  load_fits never never (@fs_empty Z) "stats.bin" None true (Kw None None (Some FaFile)).
+Proof.
+  repeat split; try reflexivity.
+  - right. left. reflexivity.
+  - right. repeat split. now left.
+  - right. left. reflexivity.
+  - left. split; [reflexivity|discriminate].
+Qed.
+
+(* a sequence of five saves onto the same archive and a raw file, then reloads *)
+Example save_sequence_sat :
+  exists fs',
+    run_saves ZC fs_empty
+      [SaveReq wit_obj "s.npz" None false true; SaveReq wit_obj "s.npz" None true false;
+       SaveReq wit_obj "s.npz" (Some "foo"%string) false false; SaveReq wit_obj "r.bin" None false true;
+       SaveReq wit_obj "s.npz" (Some "arr_0"%string) false false] = Ok fs' /\
+    (exists es, fs' "s.npz"%string = Some (FNpz false es) /\ map fst es = ["arr_0"; "arr_1"; "foo"]%string) /\
+    zinit fs' (Some "s.npz"%string) true (Kw None (Some "arr_1"%string) None) = Ok wit_obj /\
+    zinit fs' (Some "r.bin"%string) true (Kw None None (Some FaFile)) = Ok wit_obj.
+Proof. eexists. split; [reflexivity|]. split; [eexists; split; reflexivity|]. split; reflexivity. Qed.
+
+(* ------------------------------------------------------------------------ *)
+(* J. the float32 heuristic, continuing to accumulate, saving twice            *)
+
+Lemma last_opt_map {A B} (f : A -> B) : forall l c, last_opt l = Some c -> last_opt (map f l) = Some (f c).
+Proof.
+  induction l as [|a t IH]; intros c H; [discriminate|]. destruct t.
+  - inversion H. reflexivity.
+  - change (last_opt (map f (a :: a0 :: t))) with (last_opt (map f (a0 :: t))). apply IH. exact H.
+Qed.
+
+Section Float32.
+  Context {V : Type}.
+  Variable C : VClass V.
+  Variable reinterp : dtype -> dtype -> list V -> list V.
+  Variable cast : dtype -> dtype -> V -> V.
+  Variable is_table sf_ext : string -> bool.
+
+  (* statistics that some other program stored as raw float32: the loader first
+     reads the bytes as float64; if that view fails the sanity check it looks at
+     the same bytes as float32 and widens them.  Hypotheses: the float64 view is
+     rejected; the two views are views of the same bytes; the widened numbers
+     are good. *)
+  Lemma load_raw_float32 : forall (fs : fsys V) p r0 r1 c kw nv,
+    fs p = Some (FRaw DF32 (r0 ++ r1)) ->
+    kw_force_as kw = Some FaFile -> kw_dtype kw = None ->
+    (exists a1, sanitize_try C (Arr1 DF64 (reinterp DF32 DF64 (r0 ++ r1))) = Ok (a1, false)) ->
+    reinterp DF64 DF32 (reinterp DF32 DF64 (r0 ++ r1)) = r0 ++ r1 ->
+    List.length r0 = List.length r1 -> last_opt r0 = Some c ->
+    v_intlike C (cast DF32 DF64 c) = true -> v_nonneg C (cast DF32 DF64 c) = true ->
+    forallb (v_nonneg C) (map (cast DF32 DF64) r1) = true ->
+    init C reinterp cast is_table sf_ext fs (Some p) nv kw =
+    Ok (Obj (Some (Arr2 DF64 (map (cast DF32 DF64) r0) (map (cast DF32 DF64) r1))) nv).
+  Proof.
+    intros fs p r0 r1 c kw nv Hf Hfa Hk [a1 T1] Hbytes Hl Hc Hi Hn Ha.
+    unfold Model.init. rewrite Hk.
+    assert (P : exists t, probe_dtypes = DF64 :: t) by (eexists; reflexivity).
+    destruct P as [t ->]. simpl probe. unfold Model.read_signal. rewrite Hfa. cbn [bind].
+    assert (R : reader_of FaFile = RFromfile) by reflexivity. rewrite R.
+    unfold fromfile. rewrite Hf. cbn [dtype_eqb bind a_ndim].
+    assert (N : Nat.eqb 1 init_sanitize_ndim = true) by reflexivity. rewrite N.
+    unfold sanitize, sanitize_step. rewrite T1. cbn [bind]. rewrite decision_retry.
+    destruct (sanitize_try_same C _ _ _ T1) as [D1 F1]. rewrite D1, F1.
+    assert (RI : sanitize_reinterpret DF64 = Ok (DF32, DF64)) by reflexivity.
+    cbn [a_dt a_flat] in *. rewrite RI. cbn [bind]. rewrite Hbytes, map_app.
+    unfold sanitize_try. cbn [a_flat a_dt].
+    rewrite reshape2_app by (now rewrite !map_length).
+    rewrite (last_opt_map _ _ _ Hc). cbn [bind].
+    assert (Vd : stats_valid C (cast DF32 DF64 c) (map (cast DF32 DF64) r0) (map (cast DF32 DF64) r1) = true).
+    { unfold stats_valid. now rewrite Hi, Hn, Ha. }
+    rewrite Vd, decision_keep. reflexivity.
+  Qed.
+End Float32.
+
+(* accumulating further into good integer statistics (e.g. after a reload)
+   keeps them good *)
+Lemma acc_vec_good_z : forall (a : arr Z) nv x,
+  good_stats ZC a ->
+  (exists r0 r1, a = Arr2 DF64 r0 r1 /\ List.length r0 = S (List.length x)) ->
+  exists a', acc_vec 0%Z 1%Z Z.add Z.mul (Obj (Some a) nv) x = Ok (Obj (Some a') nv) /\
+             good_stats ZC a' /\
+             (exists r0 r1, a' = Arr2 DF64 r0 r1 /\ List.length r0 = S (List.length x)).
+Proof.
+  intros a nv x (r0 & r1 & c & -> & Hl & Hc & Ht & Hi & Hn & Hall) (r0' & r1' & E & Hlen).
+  inversion E; subst r0' r1'. clear E.
+  assert (Hz : exists z, last_opt r1 = Some z).
+  { destruct r1 as [|y t]; [destruct r0; simpl in *; discriminate|].
+    destruct (last_opt (y :: t)) eqn:L; [eauto|]. exfalso. clear -L.
+    revert y L. induction t; intros y L; [discriminate|]. apply (IHt a). exact L. }
+  destruct Hz as [z Hz].
+  unfold acc_vec. cbn [o_stats bind]. rewrite Hlen, Nat.eqb_refl. cbn [bind]. rewrite Hc, Hz.
+  eexists. split; [reflexivity|]. split.
+  - eexists. eexists. exists (c + 1)%Z. split; [reflexivity|].
+    simpl in Ht, Hn. apply negb_true_iff in Ht. apply Z.eqb_neq in Ht. apply Z.leb_le in Hn.
+    repeat split.
+    + rewrite !app_length, !zip_with_length, !removelast_length, map_length, <- Hl, Hlen. simpl. lia.
+    + apply last_opt_app.
+    + simpl. apply negb_true_iff. apply Z.eqb_neq. lia.
+    + simpl. apply Z.leb_le. lia.
+    + rewrite forallb_app. apply andb_true_iff. split.
+      * apply (forallb_zip_add ZC Z.add).
+        -- intros u v Hu Hv. simpl in *. apply Z.leb_le in Hu, Hv. apply Z.leb_le. lia.
+        -- now apply forallb_removelast.
+        -- apply (forallb_sq ZC Z.mul). intro v. simpl. apply Z.leb_le. apply Z.square_nonneg.
+      * simpl. rewrite andb_true_r. rewrite forallb_forall in Hall. apply Hall.
+        now apply last_opt_in.
+  - eexists. eexists. split; [reflexivity|].
+    rewrite app_length, zip_with_length, removelast_length, Hlen. simpl. lia.
+Qed.
+
+Lemma accumulate_more_good_z : forall xs (a : arr Z) nv F,
+  good_stats ZC a ->
+  (exists r0 r1, a = Arr2 DF64 r0 r1 /\ List.length r0 = S F) ->
+  (1 <= F)%nat -> xs <> [] -> (forall x, In x xs -> List.length x = F) ->
+  exists a', accumulate 0%Z 1%Z Z.add Z.mul (Obj (Some a) nv) xs = Ok (Obj (Some a') nv) /\
+             good_stats ZC a'.
+Proof.
+  intros xs a nv F Hg Hshape HF Hne Hlen.
+  assert (G : forall xs a, good_stats ZC a ->
+              (exists r0 r1, a = Arr2 DF64 r0 r1 /\ List.length r0 = S F) ->
+              (forall x, In x xs -> List.length x = F) ->
+              exists a', acc_all 0%Z 1%Z Z.add Z.mul (Obj (Some a) nv) xs = Ok (Obj (Some a') nv) /\
+                         good_stats ZC a').
+  { clear. induction xs as [|x t IH]; intros a Hg Hs Hlen; simpl; [eauto|].
+    assert (Lx : List.length x = F) by (apply Hlen; now left).
+    destruct (acc_vec_good_z a nv x Hg) as (a1 & E1 & Hg1 & Hs1).
+    { destruct Hs as (r0 & r1 & -> & L). exists r0, r1. split; [reflexivity|]. now rewrite Lx. }
+    rewrite E1. cbn [bind]. apply IH; auto.
+    - destruct Hs1 as (r0 & r1 & -> & L). exists r0, r1. split; [reflexivity|]. now rewrite <- Lx.
+    - intros; apply Hlen; now right. }
+  destruct xs as [|x t]; [congruence|]. unfold accumulate.
+  rewrite (Hlen x (or_introl eq_refl)). destruct F; [lia|]. cbn [Nat.eqb]. now apply G.
+Qed.
+
+(* saving the same statistics again with the same arguments leaves every file as
+   it is, for .npy, raw, and an archive under overwrite=True *)
+Lemma save_twice_same : forall {V} (C : VClass V) (fs : fsys V) o a p key c,
+  saveable C o a -> key_ok key ->
+  forall fs', save C fs o p key c true = Ok fs' ->
+  exists fs'', save C fs' o p key c true = Ok fs'' /\ forall q, fs'' q = fs' q.
+Proof.
+  intros V C fs o a p key c Hs Hk fs' E. destruct (save_target p) eqn:Ht.
+  - rewrite (save_npy C fs o a p key c true Hs Ht) in E. inversion E; subst.
+    eexists. split; [apply save_npy; eassumption|]. intro q. unfold fs_set.
+    destruct (String.eqb q p); reflexivity.
+  - rewrite (npz_overwrite_true C fs o a p key c Hs Ht Hk) in E. inversion E; subst.
+    eexists. split; [apply npz_overwrite_true; eassumption|]. intro q. unfold fs_set.
+    destruct (String.eqb q p); reflexivity.
+  - rewrite (save_raw C fs o a p key c true Hs Ht) in E. inversion E; subst.
+    eexists. split; [apply save_raw; eassumption|]. intro q. unfold fs_set.
+    destruct (String.eqb q p); reflexivity.
+Qed.
